@@ -4,12 +4,36 @@ import gen_bus
 
 RULE = ('python-random histories with connect / Hello / repeated Hello / traffic before Hello / close / reconnect and '
         'messages of all four types carrying a forged SENDER, unknown header fields 11..255 with variant payloads, and '
-        'CONTAINER_INSTANCE, unicast and broadcast (receivers hold match rules, some eavesdrop); distinct = distinct texts')
+        'CONTAINER_INSTANCE, unicast and broadcast (receivers hold match rules, some eavesdrop); every tenth history reconnects until unique names have two digits and forges SENDER values near the writer\'s own name (proper prefixes = other connections\' names, extensions, the name itself); distinct = distinct texts')
 W = {'req': 1, 'rel': 0.5, 'query': 0.5, 'addmatch': 1.5, 'rmmatch': 0.3, 'signal': 4, 'call': 3, 'reply': 2,
      'usignal': 2, 'close': 1.2, 'driver_other': 0.6, 'nodest': 0.8, 'hello': 0.6}
 
 
+def near_own_name(rng):
+    """after enough reconnects for two-digit unique names, clients forge SENDER values that are near their OWN unique name:
+    proper prefixes of it (another connection's name, e.g. :1.1 for :1.12), extensions of it, and the name itself"""
+    rounds = [{'ops': {'1': [{'k': 'connect', 'uid': 0}, {'k': 'hello'}, {'k': 'addmatch', 'rule': "type='signal'"}]}},
+              {'ops': {'2': [{'k': 'connect', 'uid': 0}, {'k': 'hello'}]}}]
+    for _ in range(rng.choice([9, 10, 11])):
+        rounds.append({'ops': {'3': [{'k': 'connect', 'uid': 0}, {'k': 'hello'}, {'k': 'close'}]}})
+    rounds.append({'ops': {'3': [{'k': 'connect', 'uid': 0}, {'k': 'hello'}], '4': [{'k': 'connect', 'uid': 0}, {'k': 'hello'}]}})
+    forms = ['{own-1}', '{own-1}', '{own+0}', '{own+.1}', '{own+}']      # (all of them well-formed names)
+    for _ in range(rng.choice([3, 4])):
+        s = rng.choice(['3', '4'])
+        ops = []
+        for f in rng.sample(forms, 3):
+            if rng.random() < 0.5:
+                ops.append({'k': 'send', 'ty': 4, 'path': '/a', 'ifc': 'com.example.I', 'mem': 'Sig', 'sig': 's', 'body': [f], 'forge': {'sender': f}})
+            else:
+                ops.append({'k': 'send', 'ty': 1, 'dst': {'slot': rng.choice([1, 2])}, 'path': '/a', 'ifc': 'com.example.I', 'mem': 'Ma', 'sig': 's',
+                            'body': [f], 'fl': 1, 'forge': {'sender': f}})
+        rounds.append({'ops': {s: ops}})
+    return {'cfg': {}, 'rounds': rounds}
+
+
 def gen(rng, i):
+    if i % 10 == 7:
+        return near_own_name(rng)
     g = gen_bus.Gen(rng, nslots=4, nnames=2, w=W, forge=0.6, eavesdrop=0.3 if i % 2 == 0 else 0.0)
     return g.scenario(nrounds=rng.choice([10, 14]), concurrency=0.3, burst=0.2, late_hello=0.3)
 
